@@ -52,6 +52,11 @@ def dnf(node):
             sub = dnf(v)
             res = [a + b for a in res for b in sub]
         return res
+    # (a.x, a.y) == (b.x, b.y)  is  a.x == b.x and a.y == b.y
+    if isinstance(node, ast.Compare) and len(node.ops) == 1 and isinstance(node.ops[0], ast.Eq) and isinstance(node.left, (ast.Tuple, ast.List)) \
+            and isinstance(node.comparators[0], (ast.Tuple, ast.List)) and len(node.left.elts) == len(node.comparators[0].elts) and node.left.elts:
+        return [[ast.copy_location(ast.Compare(left=l, ops=[ast.Eq()], comparators=[r]), node)
+                 for l, r in zip(node.left.elts, node.comparators[0].elts)]]
     return [[node]]
 
 
@@ -212,25 +217,112 @@ def returned_bool(fn: ast.FunctionDef, resolve=None, _depth: int = 0):
     return ast.fix_missing_locations(e)
 
 
+class _Names(ast.NodeTransformer):
+    """replace loaded local names by the expressions they were bound to"""
+
+    def __init__(self, env):
+        self.env = env
+
+    def visit_Name(self, n):
+        if isinstance(n.ctx, ast.Load) and n.id in self.env:
+            import copy
+            return copy.deepcopy(self.env[n.id])
+        return n
+
+
+def _subst(node, env):
+    import copy
+    return _Names(env).visit(copy.deepcopy(node)) if env else node
+
+
+_NI = "NotImplemented"
+
+
+def _body_dnf(stmts, env, problems):
+    """DNF (list of conjunctions = lists of leaf nodes) of the value a statement list returns, read as a boolean; `_NI` for the
+    path that answers NotImplemented; None when a statement is not understood.  Guard clauses, nested ifs and single-assignment
+    locals are followed:  `if c: return True` + rest  is  `c or rest`;  `if a: if b: return True` + rest  is  `(a and b) or rest`."""
+    env = dict(env)
+    for i, st in enumerate(stmts):
+        rest = stmts[i + 1:]
+        if isinstance(st, ast.Expr) and isinstance(st.value, ast.Constant):
+            continue
+        if isinstance(st, ast.Pass):
+            continue
+        if isinstance(st, ast.Assign) and len(st.targets) == 1 and isinstance(st.targets[0], ast.Name):
+            env[st.targets[0].id] = _subst(st.value, env)
+            continue
+        if isinstance(st, ast.AnnAssign) and isinstance(st.target, ast.Name) and st.value is not None:
+            env[st.target.id] = _subst(st.value, env)
+            continue
+        if isinstance(st, ast.Return):
+            v = st.value
+            if v is None or (isinstance(v, ast.Constant) and not v.value):
+                return []
+            if isinstance(v, ast.Constant):
+                return [[]]
+            if isinstance(v, ast.Name) and v.id == _NI:
+                return _NI
+            v = _subst(v, env)
+            if isinstance(v, ast.IfExp):
+                return _ite(v.test, _body_dnf([ast.Return(value=v.body)], {}, problems), _body_dnf([ast.Return(value=v.orelse)], {}, problems), problems)
+            if isinstance(v, ast.Call) and isinstance(v.func, ast.Name) and v.func.id == "bool" and len(v.args) == 1 and not v.keywords:
+                v = v.args[0]
+            return dnf(v)
+        if isinstance(st, ast.If):
+            a = _body_dnf(list(st.body) + rest, env, problems)
+            b = _body_dnf(list(st.orelse) + rest, env, problems)
+            return _ite(_subst(st.test, env), a, b, problems)
+        problems.append(f"statement not understood in the equality method: {ast.unparse(st)[:60]}")
+        return None
+    return []           # falls off the end: None, falsy
+
+
+def _key(conj):
+    return frozenset(ast.unparse(x) for x in conj)
+
+
+def _ite(test, a, b, problems):
+    """DNF of `a if test else b`"""
+    if a is None or b is None:
+        return None
+    if a == _NI:
+        return b            # the path for objects of another type is not part of the relation between two instances
+    if b == _NI:
+        return a
+    c = dnf(test)
+    bk = {_key(x) for x in b}
+    if a == [[]] or all(_key(x) in {_key(y) for y in a} for x in b):
+        # c ? (X or b) : b   ==   (c and X) or b
+        extra = [x for x in a if _key(x) not in bk] if a != [[]] else [[]]
+        return [ci + x for ci in c for x in extra] + list(b)
+    if not b:
+        return [ci + x for ci in c for x in a]
+    if len(c) == 1 and len(c[0]) == 1:
+        neg = ast.UnaryOp(op=ast.Not(), operand=c[0][0])
+        return [c[0] + x for x in a] + [[neg] + x for x in b]
+    problems.append(f"condition too complex to negate: {ast.unparse(test)[:60]}")
+    return None
+
+
 def eq_disjuncts(fn: ast.FunctionDef):
     """DNF of the value `__eq__` returns for two instances. -> (list of literal lists, problems)"""
     args = [a.arg for a in fn.args.args]
     selfname, oname = args[0], args[1]
-    rets = _returns(fn)
-    cands = [r for r in rets if not (isinstance(r.value, ast.Name) and r.value.id == "NotImplemented")
-             and not (isinstance(r.value, ast.Constant))]
     problems = []
-    if len(cands) != 1:
-        # several boolean returns (guard clauses, if/else arms): the one expression they amount to
-        folded = returned_bool(fn)
-        if folded is not None:
-            return [classify(c, selfname, oname) for c in dnf(folded)], problems
-    if len(cands) != 1:
-        problems.append(f"expected one boolean return in {fn.name}, found {len(cands)}")
-        if not cands:
-            return [], problems
-    node = cands[0].value
-    return [classify(c, selfname, oname) for c in dnf(node)], problems
+    d = _body_dnf(list(fn.body), {}, problems)
+    if d is None or d == _NI:
+        if not problems:
+            problems.append(f"no boolean value returned by {fn.name}")
+        return [], problems
+    # drop duplicated disjuncts, keep source order
+    seen, out = set(), []
+    for conj in d:
+        k = _key(conj)
+        if k not in seen:
+            seen.add(k)
+            out.append(conj)
+    return [classify(c, selfname, oname) for c in out], problems
 
 
 def attrs_read(node, selfname="self"):
@@ -260,24 +352,65 @@ def attrs_read_deep(fn, resolve, selfname=None, _seen=None):
     return out
 
 
-def hash_paths(fn: ast.FunctionDef):
-    """-> list of (condition text or None, set of self attributes hashed, expression text)."""
-    out = []
-    # `if c: return A` followed by `return B` is `return A if c else B`
-    body = [st for st in fn.body if not (isinstance(st, ast.Expr) and isinstance(st.value, ast.Constant))]
-    if len(body) == 2 and isinstance(body[0], ast.If) and not body[0].orelse and len(body[0].body) == 1 and isinstance(body[0].body[0], ast.Return) \
-            and isinstance(body[1], ast.Return) and body[0].body[0].value is not None and body[1].value is not None:
-        t, a, b = body[0].test, body[0].body[0].value, body[1].value
-        return [(ast.unparse(t), attrs_read(a), ast.unparse(a)), ("not " + ast.unparse(t), attrs_read(b), ast.unparse(b))]
-    if len(body) == 1 and isinstance(body[0], ast.If) and len(body[0].body) == 1 and len(body[0].orelse) == 1 \
-            and isinstance(body[0].body[0], ast.Return) and isinstance(body[0].orelse[0], ast.Return):
-        t, a, b = body[0].test, body[0].body[0].value, body[0].orelse[0].value
-        return [(ast.unparse(t), attrs_read(a), ast.unparse(a)), ("not " + ast.unparse(t), attrs_read(b), ast.unparse(b))]
-    for r in _returns(fn):
-        v = r.value
-        if isinstance(v, ast.IfExp):
-            out.append((ast.unparse(v.test), attrs_read(v.body), ast.unparse(v.body)))
-            out.append(("not " + ast.unparse(v.test), attrs_read(v.orelse), ast.unparse(v.orelse)))
-        else:
-            out.append((None, attrs_read(v), ast.unparse(v)))
-    return out
+def hash_paths(fn: ast.FunctionDef, resolve=None):
+    """-> list of (condition text or None, set of self attributes hashed, expression text), one per return path.
+    Guard clauses, if/else, conditional expressions and single-assignment locals are followed (`x = (..); return hash(x)` reads
+    what `x` reads); with `resolve(name) -> FunctionDef | None`, a call `self.helper()` of a helper that is one `return e` is
+    replaced by `e`."""
+    selfname = fn.args.args[0].arg if fn.args.args else "self"
+
+    class _Helpers(ast.NodeTransformer):
+        def __init__(self, depth=0):
+            self.depth = depth
+
+        def visit_Call(self, n):
+            self.generic_visit(n)
+            if resolve is not None and self.depth < 4 and isinstance(n.func, ast.Attribute) and isinstance(n.func.value, ast.Name) \
+                    and n.func.value.id == selfname and not n.args and not n.keywords:
+                try:
+                    callee = resolve(n.func.attr)
+                except Exception:
+                    callee = None
+                if isinstance(callee, ast.FunctionDef) and callee is not fn and len(callee.args.args) == 1 and not callee.decorator_list:
+                    sub = _paths(list(callee.body), [], {callee.args.args[0].arg: ast.Name(id=selfname, ctx=ast.Load())}, self.depth + 1)
+                    if sub is not None and len(sub) == 1 and not sub[0][0]:
+                        return sub[0][1]
+            return n
+
+    def _paths(stmts, conds, env, depth=0):
+        env = dict(env)
+        for i, st in enumerate(stmts):
+            rest = stmts[i + 1:]
+            if isinstance(st, (ast.Pass,)) or (isinstance(st, ast.Expr) and isinstance(st.value, ast.Constant)):
+                continue
+            if isinstance(st, ast.Assign) and len(st.targets) == 1 and isinstance(st.targets[0], ast.Name):
+                env[st.targets[0].id] = _Helpers(depth).visit(_subst(st.value, env))
+                continue
+            if isinstance(st, ast.Return) and st.value is not None:
+                v = _Helpers(depth).visit(_subst(st.value, env))
+                if isinstance(v, ast.IfExp):
+                    return [(conds + [(v.test, True)], v.body), (conds + [(v.test, False)], v.orelse)]
+                return [(conds, v)]
+            if isinstance(st, ast.If):
+                t = _subst(st.test, env)
+                a = _paths(list(st.body) + rest, conds + [(t, True)], env, depth)
+                b = _paths(list(st.orelse) + rest, conds + [(t, False)], env, depth)
+                return None if a is None or b is None else a + b
+            return None
+        return []
+
+    def ctext(conds):
+        if not conds:
+            return None
+        return " and ".join(ast.unparse(t) if pol else "not " + ast.unparse(t) for t, pol in conds)
+
+    ps = _paths(list(fn.body), [], {})
+    if ps is None:
+        # a statement kind that is not followed: fall back to the returns as written
+        ps = []
+        for r in _returns(fn):
+            if isinstance(r.value, ast.IfExp):
+                ps += [([(r.value.test, True)], r.value.body), ([(r.value.test, False)], r.value.orelse)]
+            else:
+                ps.append(([], r.value))
+    return [(ctext(c), attrs_read(v, selfname), ast.unparse(v)) for c, v in ps]
